@@ -41,7 +41,9 @@ Definition mode_eqb (a b : mode) : bool :=
 (** An occupied exchange slot: owned by a handler / initiator, waiting to be
     accepted, or dropped by its owner with an acknowledgement still to send
     ([XDropAck], also the plain "marked dropped" state) or with a
-    retransmission still pending ([XDropRetr]: the session will be closed). *)
+    retransmission still pending ([XDropRetr]: the session will be closed).
+    [XDropAck] also stands for "dropped, nothing pending" (accept time-out of an unreliable
+    message; retransmission acknowledged after the drop): the sweeper treats both alike. *)
 Inductive xst := XOwned | XPending | XDropAck | XDropRetr.
 
 Record session := mkS {
@@ -251,6 +253,8 @@ Inductive op :=
 | OExTimeout (id : N) (xi : nat) (now : N)        (* accept time-out: AcceptPending -> Dropped *)
 | OExDrop (id : N) (xi : nat) (retr ack : bool) (now : N)   (* Drop for Exchange *)
 | OSweep (now : N)                                (* handle_dropped_exchange *)
+| OExAcked (id : N) (xi : nat) (now : N)          (* the peer's acknowledgement reaches a dropped exchange:
+                                                     its pending retransmission is gone *)
 | ORxExch (id : N) (now : N)                      (* receive path: a message that opens an exchange on [id] *)
 | ORemoveSet (ids : list N) (keep : option N).    (* Sessions::remove_for_fabric *)
 
@@ -373,6 +377,22 @@ Definition step (cap mx : nat) (s : st) (o : op) : st * out :=
       end
   | ORemovePase keep => (mkSt (t_remove_pase keep (tb s)) (hs s), ROk)
   | OExAdd id pending now => ex_add mx s id pending now
+  | OExAcked id xi now =>
+      (* post_recv of a stand-alone ack on an exchange its owner has dropped: nothing is pending
+         any more (neither retransmission nor acknowledgement); the slot stays Dropped until the
+         sweeper clears it *)
+      match t_lookup id (tb s) with
+      | None => (s, RNone)
+      | Some x =>
+          match nth_error (s_exch x) xi with
+          | Some (Some XDropRetr) =>
+              match t_get id now (tb s) with
+              | Some t1 => (mkSt (t_upd id (xset xi (Some XDropAck)) t1) (hs s), ROk)
+              | None => (s, RNone)
+              end
+          | _ => (s, RNone)
+          end
+      end
   | ORxExch id now =>
       (* handle_rx_packet: NoSpaceExchanges => the whole session is closed *)
       match ex_add mx s id true now with
